@@ -178,3 +178,44 @@ func specSid(frame []byte) uint16  { return uint16(frame[0])<<8 | uint16(frame[1
 //@ ensures [selected] zzRet[hsms.ConnState]("hsms.(TransportRuntime).State") == hsms.SelectedState ==> !result && zzCalls("hsms.(TransportRuntime).TCPDown") == 1
 //@ ensures [ignored]  zzRet[hsms.ConnState]("hsms.(TransportRuntime).State") != hsms.SelectedState ==> result && zzCalls("hsms.(TransportRuntime).TCPDown") == 0
 //@ ensures [one]      zzCalls("hsms.(TransportRuntime).State") == 1
+
+func specCtlHeader(m hsms.Message) [10]byte { return m.HeaderBytes() }
+func specIsCtl(m hsms.Message) bool {
+	c, ok := m.(*hsms.ControlMessage)
+	return ok && c != nil
+}
+
+//@ func (*transport).handleLinktestReq
+//@ nosafety nil-deref nil-iface
+//@ requires t != nil && msg != nil
+//@ emits hsms.(TransportRuntime).SendAsync, hsms.(TransportRuntime).TCPDown, hsms.(TransportRuntime).DeliverOwnedFrame
+//@ ensures [quiet] zzCalls("hsms.(TransportRuntime).TCPDown") == 0 && zzCalls("hsms.(TransportRuntime).DeliverOwnedFrame") == 0 && zzCalls("hsms.(TransportRuntime).SendAsync") <= 1
+//@ ensures [rsp]   specIsCtl(msg) && specCtlHeader(msg)[5] == 5 ==> zzCalls("hsms.(TransportRuntime).SendAsync") == 1 && specSentIsControl() &&
+//@                 specSentHeader() == specHdr(0xFFFF, 0, 0, 0, 6, [4]byte{specCtlHeader(msg)[6], specCtlHeader(msg)[7], specCtlHeader(msg)[8], specCtlHeader(msg)[9]})
+
+//@ func (*transport).handleSelectReq
+//@ nosafety nil-deref nil-iface
+//@ requires t != nil && req != nil
+//@ emits hsms.(TransportRuntime).SendAsync, hsms.(TransportRuntime).TCPDown, hsms.(TransportRuntime).DeliverOwnedFrame, hsms.(TransportRuntime).CommitSelected, hsms.(TransportRuntime).SelectLost
+//@ ensures [quiet]  zzCalls("hsms.(TransportRuntime).TCPDown") == 0 && zzCalls("hsms.(TransportRuntime).DeliverOwnedFrame") == 0 && zzCalls("hsms.(TransportRuntime).SelectLost") == 0 &&
+//@                  zzCalls("hsms.(TransportRuntime).SendAsync") <= 1 && zzCalls("hsms.(TransportRuntime).CommitSelected") == 1
+//@ ensures [first]  specIsCtl(req) && specCtlHeader(req)[5] == 1 && zzRet[bool]("hsms.(TransportRuntime).CommitSelected") ==>
+//@                  zzCalls("hsms.(TransportRuntime).SendAsync") == 1 && specSentIsControl() &&
+//@                  specSentHeader() == specHdr(uint16(specCtlHeader(req)[0])<<8|uint16(specCtlHeader(req)[1]), 0, 0, 0, 2, [4]byte{specCtlHeader(req)[6], specCtlHeader(req)[7], specCtlHeader(req)[8], specCtlHeader(req)[9]})
+//@ ensures [again]  specIsCtl(req) && specCtlHeader(req)[5] == 1 && !zzRet[bool]("hsms.(TransportRuntime).CommitSelected") ==>
+//@                  zzCalls("hsms.(TransportRuntime).SendAsync") == 1 && specSentIsControl() &&
+//@                  specSentHeader() == specHdr(uint16(specCtlHeader(req)[0])<<8|uint16(specCtlHeader(req)[1]), 0, 1, 0, 2, [4]byte{specCtlHeader(req)[6], specCtlHeader(req)[7], specCtlHeader(req)[8], specCtlHeader(req)[9]})
+//@ ensures [order]  zzCalls("hsms.(TransportRuntime).SendAsync") == 1 ==> zzSeq("hsms.(TransportRuntime).CommitSelected") < zzSeq("hsms.(TransportRuntime).SendAsync")
+
+//@ func (*transport).handleDeselectReq
+//@ nosafety nil-deref nil-iface
+//@ requires t != nil && msg != nil
+//@ emits hsms.(TransportRuntime).SendAsync, hsms.(TransportRuntime).TCPDown, hsms.(TransportRuntime).DeliverOwnedFrame, hsms.(TransportRuntime).State, hsms.(TransportRuntime).SelectLost, hsms.(TransportRuntime).CommitSelected
+//@ ensures [quiet]  zzCalls("hsms.(TransportRuntime).TCPDown") == 0 && zzCalls("hsms.(TransportRuntime).DeliverOwnedFrame") == 0 && zzCalls("hsms.(TransportRuntime).CommitSelected") == 0 &&
+//@                  zzCalls("hsms.(TransportRuntime).SendAsync") <= 1
+//@ ensures [sel]    specIsCtl(msg) && specCtlHeader(msg)[5] == 3 && zzRet[hsms.ConnState]("hsms.(TransportRuntime).State") == hsms.SelectedState ==>
+//@                  zzCalls("hsms.(TransportRuntime).SendAsync") == 1 && zzCalls("hsms.(TransportRuntime).SelectLost") == 1 && specSentIsControl() &&
+//@                  specSentHeader() == specHdr(uint16(specCtlHeader(msg)[0])<<8|uint16(specCtlHeader(msg)[1]), 0, 0, 0, 4, [4]byte{specCtlHeader(msg)[6], specCtlHeader(msg)[7], specCtlHeader(msg)[8], specCtlHeader(msg)[9]})
+//@ ensures [notsel] specIsCtl(msg) && specCtlHeader(msg)[5] == 3 && zzRet[hsms.ConnState]("hsms.(TransportRuntime).State") != hsms.SelectedState ==>
+//@                  zzCalls("hsms.(TransportRuntime).SendAsync") == 1 && zzCalls("hsms.(TransportRuntime).SelectLost") == 0 && specSentIsControl() &&
+//@                  specSentHeader() == specHdr(uint16(specCtlHeader(msg)[0])<<8|uint16(specCtlHeader(msg)[1]), 0, 1, 0, 4, [4]byte{specCtlHeader(msg)[6], specCtlHeader(msg)[7], specCtlHeader(msg)[8], specCtlHeader(msg)[9]})
